@@ -1,8 +1,11 @@
 import CotengraVerif.Driver.Util
 import CotengraVerif.Model.Reuse
+import CotengraVerif.Model.ReuseNest
+import CotengraVerif.Model.ReusePool
 
 namespace Cotengra.Driver.C16
 open Lean Cotengra Cotengra.Driver Cotengra.Hyper Cotengra.Reuse
+open Cotengra.ReuseNest Cotengra.ReusePool
 
 def scoreOf (j : Json) : Except String Score :=
   match j with
@@ -71,6 +74,171 @@ def run : Handler := fun j => do
             jArr [jNat k, jBool ((s.objs (cfg.objOf t)).cache k).isSome]))]
   pure (jObj [("threads", jArr outs)])
 
-def handlers : List (String × Handler) := [("c16.run", run)]
+
+/-! ### nested queries: `c16.nrun` -/
+
+def modeOf (s : String) : Except String Mode :=
+  match s with
+  | "reusable" => pure Mode.reusable
+  | "auto_cached" => pure Mode.autoCached
+  | "auto_plain" => pure Mode.autoPlain
+  | s => throw s!"unknown kind {s}"
+
+def overwriteOf (s : String) : Except String Overwrite :=
+  match s with
+  | "no" => pure Overwrite.no
+  | "yes" => pure Overwrite.yes
+  | "improved" => pure Overwrite.improved
+  | s => throw s!"unknown overwrite {s}"
+
+def trialOfScore (s : Score) : Trial :=
+  { score := s, flops := s, write := s, size := s, tree := if s.isSome then some 0 else none }
+
+/-- `{"q":[net,key,hard],"kind":..,"obj":n,"call":bool,"trials":[{"nested":[..],"score":n|null}]}` -/
+partial def qtreeOf (j : Json) : Except String QTree := do
+  let q ← match ← arrOf (← field j "q") with
+    | [n, k, h] => pure ({ net := ← natOf n, key := ← natOf k, hard := ← h.getBool? } : Query)
+    | _ => throw "query must be [net, key, hard]"
+  let kind ← modeOf (← (← field j "kind").getStr?)
+  let obj ← natOf (← field j "obj")
+  let call ← (fieldD j "call" (Json.bool false)).getBool?
+  let trials ← (← arrOf (← field j "trials")).mapM fun tj => do
+    let nested ← (← arrOf (fieldD tj "nested" (jArr []))).mapM qtreeOf
+    let sc ← scoreOf (fieldD tj "score" Json.null)
+    pure (nested, (⟨0, 0⟩ : Setting), trialOfScore sc)
+  pure (.node q kind obj call trials)
+
+def labelName : Label → String
+  | .silent => "silent" | .hash => "hash" | .getopt => "getopt" | .alloc => "alloc"
+  | .call => "call" | .trial => "trial" | .search => "search" | .store => "store"
+  | .cacheGet => "cacheGet" | .cacheSet => "cacheSet" | .ret => "ret"
+
+/-- one small step of thread `t`, with its label -/
+def nstepL (cfg : NCfg) (s : NSys) (t : Nat) : NSys × Label :=
+  let x := stepThread cfg t (s.threads t) s.objs
+  (ReuseNest.step cfg s t, x.2.2)
+
+def quiescent (s : NSys) (t : Nat) : Bool :=
+  (s.threads t).stack.isEmpty && (s.threads t).queue.isEmpty
+
+/-- thread `t` runs small steps (all through `ReuseNest.step`) until it has made a step with an
+    observable label, or — for the expected label "end" — until a top-level query has returned.
+    Returns the state and what ended the segment. -/
+def runSegment (cfg : NCfg) (observable : List String) (t : Nat) : Nat → NSys → NSys × String
+  | 0, s => (s, "out-of-fuel")
+  | fuel + 1, s =>
+    if quiescent s t then (s, "quiescent")
+    else
+      let (s1, l) := nstepL cfg s t
+      let nm := labelName l
+      if observable.contains nm then (s1, nm)
+      else if l == Label.ret && (s1.threads t).stack.isEmpty then (s1, "end")
+      else runSegment cfg observable t fuel s1
+
+def runSegments (cfg : NCfg) (observable : List String) (fuel : Nat) :
+    List (Nat × String) → Nat → NSys → NSys × Option (Nat × String × String)
+  | [], _, s => (s, none)
+  | (t, lab) :: rest, i, s =>
+    let (s1, got) := runSegment cfg observable t fuel s
+    if got == lab then runSegments cfg observable fuel rest (i + 1) s1
+    else (s1, some (i, lab, got))
+
+/-- run every thread to the end of its program (round robin over whole threads) -/
+def runToEnd (cfg : NCfg) (n : Nat) (fuel : Nat) (s : NSys) : NSys :=
+  (List.range n).foldl (fun s t =>
+    (List.range fuel).foldl (fun s _ => if quiescent s t then s else ReuseNest.step cfg s t) s) s
+
+/-- op `c16.nrun`: nested queries under a schedule given in segments.
+    `overwrite`: [[obj, "no"|"yes"|"improved"]]; `cache_only`: [obj]; `register_first`: bool;
+    `queues`: per thread a list of nesting trees; `segments`: [[thread, label]] — the thread runs
+    until its next step with an observable label, which must be the given one ("end" = a
+    top-level query returned); `observable`: which labels the harness has yield points for;
+    `probe`: [[obj, key]] cache entries to report.  After the segments every thread is run to
+    the end of its program. -/
+def nrun : Handler := fun j => do
+  let ovs ← (← arrOf (fieldD j "overwrite" (jArr []))).mapM fun p => do
+    match ← arrOf p with
+    | [o, v] => pure (← natOf o, ← overwriteOf (← v.getStr?))
+    | _ => throw "overwrite entry must be [obj, mode]"
+  let cos ← natList (fieldD j "cache_only" (jNats []))
+  let regFirst ← (fieldD j "register_first" (Json.bool false)).getBool?
+  let queues ← (← arrOf (← field j "queues")).mapM fun qs => do (← arrOf qs).mapM qtreeOf
+  let segs ← (← arrOf (fieldD j "segments" (jArr []))).mapM fun p => do
+    match ← arrOf p with
+    | [t, l] => pure (← natOf t, ← l.getStr?)
+    | _ => throw "segment must be [thread, label]"
+  let observable ← (← arrOf (fieldD j "observable" (jArr []))).mapM fun x => x.getStr?
+  let probe ← pairList (fieldD j "probe" (jArr []))
+  let fuel ← natOf (fieldD j "fuel" (jNat 2000))
+  let cfg : NCfg :=
+    { overwrite := fun o => match ovs.find? (·.1 == o) with | some p => p.2 | none => .no,
+      cacheOnly := fun o => cos.contains o, registerFirst := regFirst }
+  let s0 := NSys.start fun t => queues.getD t []
+  let (s1, mism) := runSegments cfg observable fuel segs 0 s0
+  let n := queues.length
+  let s := runToEnd cfg n fuel s1
+  let outs := (List.range n).map fun t =>
+    let th := s.threads t
+    jObj [("results", jArr (th.results.map fun r =>
+            jArr [jNat r.q.net, jNat r.depth, jBool r.viaCall, jOptNat r.got])),
+          ("nalloc", jNat th.nalloc), ("stack", jNat th.stack.length),
+          ("left", jNat th.queue.length),
+          ("after_segments", jNat ((s1.threads t).results.length))]
+  let cached := probe.map fun (o, k) => jArr [jNat o, jNat k, jBool ((s.objs o).cache k).isSome]
+  let mj := match mism with
+    | none => Json.null
+    | some (i, e, g) => jObj [("segment", jNat i), ("expected", jStr e), ("got", jStr g)]
+  pure (jObj [("threads", jArr outs), ("cached", jArr cached), ("mismatch", mj)])
+
+/-! ### overlapping pool-parallel searches: `c16.pool` -/
+
+def idxOf (l : List Fut) (o k : Nat) : Option Nat :=
+  (l.zipIdx.find? fun (f, _) => f.origin == o && f.k == k).map (·.2)
+
+/-- op `c16.pool`: `fresh`: bool; `nets`: contraction of each search; `scores`: per search, the
+    score of its k-th submission (null = failed trial); `events`: ["begin",σ] | ["submit",σ] |
+    ["harvest",σ,origin,k] (the future that search σ reported) | ["cancel",σ].  A harvested future
+    that is not in the model's list of σ is reported as a mismatch (the event is skipped). -/
+def pool : Handler := fun j => do
+  let fresh ← (fieldD j "fresh" (Json.bool true)).getBool?
+  let nets ← natList (← field j "nets")
+  let scores ← (← arrOf (← field j "scores")).mapM fun per => do (← arrOf per).mapM scoreOf
+  let cfg : PCfg :=
+    { freshList := fresh,
+      queryOf := fun σ => { net := nets.getD σ 0, key := σ, hard := true },
+      envs := fun σ => { getSetting := fun st => ⟨0, st.submitted⟩,
+                         trialFn := fun k _ => trialOfScore ((scores.getD σ []).getD k none) } }
+  let evs ← arrOf (← field j "events")
+  let mut s := PSys.start
+  let mut mism : List Json := []
+  let mut i := 0
+  for e in evs do
+    match ← arrOf e with
+    | [tag, a] =>
+      let σ ← natOf a
+      match ← tag.getStr? with
+      | "begin" => s := pstep cfg s (.begin σ)
+      | "submit" => s := pstep cfg s (.submit σ)
+      | "cancel" => s := pstep cfg s (.cancel σ)
+      | t => throw s!"unknown event {t}"
+    | [tag, a, o, k] =>
+      if (← tag.getStr?) != "harvest" then throw "expected harvest"
+      let σ ← natOf a
+      let o ← natOf o
+      let k ← natOf k
+      match idxOf (s.lists (s.searches σ).list) o k with
+      | some c => s := pstep cfg s (.harvest σ c)
+      | none => mism := mism ++ [jObj [("event", jNat i), ("search", jNat σ), ("origin", jNat o), ("k", jNat k)]]
+    | _ => throw "bad event"
+    i := i + 1
+  let outs := (List.range nets.length).map fun σ =>
+    let sr := s.searches σ
+    jObj [("reported", jArr (sr.reported.map fun f => jArr [jNat f.origin, jNat f.k])),
+          ("cancelled", jArr (sr.cancelled.map fun f => jArr [jNat f.origin, jNat f.k])),
+          ("tree", jOptNat sr.h.tree), ("ntrials", jNat sr.h.scores.length),
+          ("pending", jNat (s.lists sr.list).length), ("submitted", jNat sr.h.submitted)]
+  pure (jObj [("searches", jArr outs), ("mismatch", jArr mism)])
+
+def handlers : List (String × Handler) := [("c16.run", run), ("c16.nrun", nrun), ("c16.pool", pool)]
 
 end Cotengra.Driver.C16
